@@ -12,7 +12,7 @@ DEFAULT_PROFILE = {
     "p_cli_select": 0.3, "p_cli_disable": 0.25, "p_cli_define": 0.3, "p_cli_builders": 0.3, "p_cli_apps": 0.3,
     "p_partition": 0.0, "p_local": 0.0, "p_escape": 0.08, "p_expr": 0.1, "p_postlink": 0.15, "p_srcdir": 0.1,
     "p_removes": 0.1, "p_notify_all": 0.05, "p_nobindir": 0.0, "p_include": 0.1, "p_bad": 0.0,
-    "p_cycle": 0.02, "p_task_fail": 0.0, "p_out_per_builder": 0.3, "p_same_override": 0.15, "p_hard_missing": 0.03, "p_app_elsewhere": 0.25,
+    "p_cycle": 0.02, "p_task_fail": 0.0, "p_root_noenv": 0.06, "p_out_per_builder": 0.3, "p_same_override": 0.15, "p_hard_missing": 0.03, "p_app_elsewhere": 0.25,
 }
 
 VARS = ["CFLAGS", "DEFS", "OPT", "X", "LIBS"]
@@ -119,6 +119,8 @@ class Gen:
         if not self.chance("p_nobindir"):
             denv["bindir"] = "${build-dir}/out/${builder}/${app}"
         default = {"name": "default", "env": denv, "rules": base_rules}
+        if self.chance("p_root_noenv"):
+            del default["env"]          # a context chain whose upper part has no env at all
         contexts.append(default)
         all_ctx = [default]
         for i in range(1, nctx):
